@@ -1,6 +1,7 @@
 package main
 
 import (
+	"bufio"
 	"bytes"
 	"context"
 	"fmt"
@@ -32,6 +33,47 @@ var solvers = []solverSpec{
 	}},
 }
 
+// runSolverTimed streams the solver's stdout and records when each result line arrived.
+func runSolverTimed(s solverSpec, file string, ms int, hardMs int) ([]string, []int64, []string, error) {
+	ctx, cancel := context.WithTimeout(context.Background(), time.Duration(hardMs)*time.Millisecond)
+	defer cancel()
+	argv := s.argv(file, ms)
+	cmd := exec.CommandContext(ctx, argv[0], argv[1:]...)
+	pipe, err := cmd.StdoutPipe()
+	if err != nil {
+		return nil, nil, nil, err
+	}
+	cmd.Stderr = cmd.Stdout
+	if err := cmd.Start(); err != nil {
+		return nil, nil, nil, err
+	}
+	var results []string
+	var times []int64
+	var errs []string
+	sc := bufio.NewScanner(pipe)
+	sc.Buffer(make([]byte, 1<<20), 1<<26)
+	last := time.Now()
+	for sc.Scan() {
+		l := strings.TrimSpace(sc.Text())
+		switch l {
+		case "sat", "unsat", "unknown", "timeout":
+			now := time.Now()
+			results = append(results, l)
+			times = append(times, now.Sub(last).Milliseconds())
+			last = now
+		default:
+			if strings.HasPrefix(l, "(error") {
+				errs = append(errs, l)
+			}
+		}
+	}
+	cmd.Wait()
+	if ctx.Err() != nil {
+		return results, times, errs, fmt.Errorf("timeout")
+	}
+	return results, times, errs, nil
+}
+
 func runSolver(s solverSpec, file string, ms int, hardMs int) (string, error) {
 	ctx, cancel := context.WithTimeout(context.Background(), time.Duration(hardMs)*time.Millisecond)
 	defer cancel()
@@ -51,7 +93,7 @@ func runSolver(s solverSpec, file string, ms int, hardMs int) (string, error) {
 
 // SolveUnit discharges the obligations of a unit.
 func SolveUnit(r *UnitResult, cfg SolverCfg) {
-	if r.Unsupported != "" || len(r.Obs) == 0 {
+	if r.Unsupported != "" || len(r.Obs) == 0 || os.Getenv("GOVC_NOSOLVE") != "" {
 		return
 	}
 	script, order := r.IncrementalScript()
@@ -59,32 +101,38 @@ func SolveUnit(r *UnitResult, cfg SolverCfg) {
 	os.MkdirAll(dir, 0o755)
 	file := filepath.Join(dir, "unit.smt2")
 	os.WriteFile(file, []byte(script), 0o644)
-	start := time.Now()
-	out, err := runSolver(solvers[0], file, cfg.QuickMs, cfg.QuickMs*(len(order)+2)+10000)
-	el := time.Since(start).Milliseconds()
-	lines := strings.Split(out, "\n")
-	var results []string
-	var errs []string
-	for _, l := range lines {
-		l = strings.TrimSpace(l)
-		switch l {
-		case "sat", "unsat", "unknown", "timeout":
-			results = append(results, l)
-		default:
-			if strings.HasPrefix(l, "(error") {
-				errs = append(errs, l)
-			}
-		}
-	}
-	_ = err
-	per := int64(0)
-	if len(order) > 0 {
-		per = el / int64(len(order))
-	}
-	for i, ob := range order {
+	results, times, errs, _ := runSolverTimed(solvers[0], file, cfg.QuickMs, cfg.QuickMs*(len(order)+2)+10000)
+	ri := 0
+	for _, ob := range order {
 		res := "unknown"
-		if i < len(results) {
-			res = results[i]
+		obMs := int64(0)
+		riStart := ri
+		if len(ob.Parts) > 0 {
+			res = "unsat"
+			ob.FailPart = -1
+			ob.failParts = nil
+			for pi := range ob.Parts {
+				pr := "unknown"
+				if ri < len(results) {
+					pr = results[ri]
+				}
+				ri++
+				if pr != "unsat" {
+					ob.failParts = append(ob.failParts, pi)
+					if res == "unsat" {
+						res = pr
+						ob.FailPart = pi
+					}
+				}
+			}
+		} else {
+			if ri < len(results) {
+				res = results[ri]
+			}
+			ri++
+		}
+		for k := riStart; k < ri && k < len(times); k++ {
+			obMs += times[k]
 		}
 		if len(errs) > 0 {
 			res = "error"
@@ -95,7 +143,7 @@ func SolveUnit(r *UnitResult, cfg SolverCfg) {
 		}
 		ob.Result = res
 		ob.Backend = solvers[0].name + " (incremental)"
-		ob.Ms = per
+		ob.Ms = obMs
 	}
 	// fallback / cross-check
 	var wg sync.WaitGroup
@@ -103,7 +151,7 @@ func SolveUnit(r *UnitResult, cfg SolverCfg) {
 	for _, ob := range order {
 		need := false
 		if ob.Cover {
-			need = ob.Result != "sat" && ob.Result != "unsat"
+			need = ob.Result != "sat"
 		} else {
 			need = ob.Result != "unsat"
 		}
@@ -115,6 +163,19 @@ func SolveUnit(r *UnitResult, cfg SolverCfg) {
 			defer wg.Done()
 			sem <- struct{}{}
 			defer func() { <-sem }()
+			if len(ob.failParts) > 0 {
+				// every part that was not discharged incrementally gets its own standalone race
+				for _, pi := range ob.failParts {
+					ob.FailPart = pi
+					ob.Result = "unknown"
+					standalone(r, ob, cfg, dir)
+					if ob.Result != "unsat" {
+						ob.Detail = fmt.Sprintf("exit %d of %d (return at %s): %s", pi+1, len(ob.Parts), ob.PartPos[pi], ob.Detail)
+						return
+					}
+				}
+				return
+			}
 			standalone(r, ob, cfg, dir)
 		}(ob)
 	}
@@ -124,6 +185,9 @@ func SolveUnit(r *UnitResult, cfg SolverCfg) {
 func standalone(r *UnitResult, ob *Obligation, cfg SolverCfg, dir string) {
 	q := r.QueryFor(ob, !ob.Cover)
 	file := filepath.Join(dir, mangle(ob.Name)+".smt2")
+	if len(ob.Parts) > 0 {
+		file = filepath.Join(dir, fmt.Sprintf("%s.exit%d.smt2", mangle(ob.Name), ob.FailPart+1))
+	}
 	os.WriteFile(file, []byte(q), 0o644)
 	type res struct {
 		solver string
@@ -154,7 +218,7 @@ func standalone(r *UnitResult, ob *Obligation, cfg SolverCfg, dir string) {
 			ch <- res{s.name, out, first, time.Since(t0).Milliseconds()}
 		}(s)
 	}
-	wasUnsat := ob.Result == "unsat"
+	wasUnsat := ob.Result == "unsat" && !ob.Cover
 	var all []res
 	for range solvers {
 		all = append(all, <-ch)
@@ -190,9 +254,22 @@ func standalone(r *UnitResult, ob *Obligation, cfg SolverCfg, dir string) {
 			return
 		}
 	}
+	if ob.Cover {
+		// a cover is refuted only if a standalone solver run confirms unsat
+		for _, x := range all {
+			if x.first == "unsat" {
+				ob.Result, ob.Backend, ob.Ms = "unsat", x.solver, x.ms
+				return
+			}
+		}
+		ob.Result = "unknown"
+		ob.Backend = "z3-5.1.0, z3-4.8.12, cvc5-1.0.3"
+		ob.Detail = "satisfiability not decided (quantified context); an incremental-mode unsat, if any, was not confirmed standalone"
+		return
+	}
 	// not discharged: prefer a model
 	for _, x := range all {
-		if x.first == "sat" || (ob.Cover && x.first == "unsat") {
+		if x.first == "sat" {
 			ob.Result = x.first
 			ob.Backend = x.solver
 			ob.Ms = x.ms
